@@ -12,14 +12,15 @@ import datetime
 
 from . import bridge, seams, world
 from .ref import armor as rarmor, enc as renc, keys as rkeys, sigs as rsigs, tkey as rtkey
-from .ref.wire import WireError, split_packets
+from .ref.wire import WireError, encode_packet, split_packets
 
 HASHNAMES = {1: 'MD5', 2: 'SHA1', 3: 'RIPEMD160', 8: 'SHA256', 9: 'SHA384', 10: 'SHA512', 11: 'SHA224'}
 SIGN_KINDS = ('doc', 'text', 'timestamp', 'msg', 'cleartext', 'cert_self', 'cert_other', 'uattr_cert', 'direct_other',
               'direct_self', 'bind', 'revoke_key', 'revoke_subkey', 'revoke_uid', 'revoker', 'attest')
 
 UIDS = [['Alice', '', 'alice@example.org'], ['Alice Work', 'work', 'alice@corp.example'], ['Bob', '', 'bob@example.org'],
-        ['Björn Ünïcode', 'ß', 'bjorn@example.org'], ['Carol (the) Danvers', '', 'c@example.org'], ['Dave', 'home', '']]
+        ['Björn Ünïcode', 'ß', 'bjorn@example.org'], ['Carol (the) Danvers', '', 'c@example.org'], ['Dave', 'home', ''],
+        ['', '', '']]            # the empty user id (RFC 4880 5.11 sets no minimum)
 
 
 def gen_keys(rng, n=None, algs=None, heavy=0.12):
@@ -41,7 +42,7 @@ def gen_keys(rng, n=None, algs=None, heavy=0.12):
             subkeys.append({'alg': rng.choice(['cv25519', 'ecdh_p256']), 'usage': 'E'})
         uids = rng.sample(UIDS, rng.choice([1, 2, 2, 3]))
         if rng.random() < 0.3:
-            uids.append({'image': True})
+            uids.append({'image': True, 'extra_subpackets': rng.random() < 0.4})
         keys['k%d' % i] = {'alg': alg, 'uids': uids, 'subkeys': subkeys, 'revoked': rng.random() < 0.2,
                            'revoked_subkeys': [0] if subkeys and rng.random() < 0.2 else [],
                            'usage': rng.choice(['CS', 'CS', 'CS', 'C']) if subkeys and subkeys[0]['usage'] == 'S' else 'CS',
@@ -144,6 +145,31 @@ class Artifact(object):
         return a
 
 
+def _with_extra_uattr_subpackets(pgpy, key, ctx):
+    """The same key with a user attribute that holds more than its image subpacket (legal under RFC 4880 5.12, written by
+    other implementations, never by PGPy): the attribute packet is rewritten on the wire, its now stale self-certification is
+    dropped, the key re-imported and the attribute certified anew through the public API."""
+    from .ref.wire import encode_subpacket
+    out = bytearray()
+    skip_sigs = False
+    for p in split_packets(bytes(key)):
+        if p.tag == 17:
+            # the image, a private-use subpacket, and a second image (the first one with its last octet changed)
+            out += encode_packet(17, p.body + encode_subpacket(101, b'private-use attribute data') + p.body[:-1] + b'\x00')
+            skip_sigs = True
+            continue
+        if p.tag == 2 and skip_sigs:
+            continue
+        if p.tag != 2:
+            skip_sigs = False
+        out += p.raw
+    k2 = pgpy.PGPKey.from_blob(bytes(out))[0]
+    for ua in k2.userattributes:
+        ua |= k2.certify(ua, pgpy.constants.SignatureType.Positive_Cert)
+    ctx.probe('uattr_multi_subpacket')
+    return k2
+
+
 class SigWorld(object):
     def __init__(self, keys_cfg, ctx, label=''):
         import pgpy
@@ -152,6 +178,8 @@ class SigWorld(object):
         self.keys = {}
         for name in sorted(keys_cfg):
             k = world.build_key(keys_cfg[name], label + name)
+            if any(isinstance(u, dict) and u.get('extra_subpackets') for u in keys_cfg[name].get('uids', [])):
+                k = _with_extra_uattr_subpackets(pgpy, k, ctx)
             # key states a verifier meets in the wild: revoked primaries / subkeys (advisory in PGPy)
             try:
                 subs = list(k.subkeys.values())
@@ -399,7 +427,7 @@ def ref_view(art, canonical=False):
                 for c in tk.uids:
                     if s.get('uid') is not None and c.kind == 'uid' and c.pkt.body == s['uid']:
                         comp = c
-                    if s.get('uid') is None and c.kind == 'uattr' and c.pkt.body.endswith(s['image']):
+                    if s.get('uid') is None and c.kind == 'uattr' and s['image'] in c.pkt.body:
                         comp = c
                 if comp is None:
                     v.error = 'uid not in key'
